@@ -979,9 +979,9 @@ class Buffer(Iterable):
         try:
             while True:
                 z = tasks.get()
-                if z == finished:
+                if z is finished:
                     break
-                if z == stopped:
+                if z is stopped:
                     raise tasks.get()
                 yield z
         finally:
